@@ -571,6 +571,12 @@ fn gen_utf8(ctx: &mut Ctx, out: &mut Out, thorough: bool, rng: &mut Rng) {
             }
         }
     }
+    // every sequence of up to four characters over the four length classes as the END of the buffer
+    // (and, with a truncated last character, as an invalid end), after ASCII prefixes around the stride sizes:
+    // the hand-over conditions between the validator's inner loops and its short-tail loop
+    for v in crate::util::utf8_tail_shapes() {
+        ctx.case8(out, "utf8", &v);
+    }
     // every (lead, second) pair followed by valid / invalid third and fourth bytes, at
     // short and long total lengths (reaches 'inner, 'three and 'tail with each pair)
     let seconds: Vec<u8> =
